@@ -222,7 +222,7 @@ def run(prop, tier):
     for kind, module, cfg, label in gens:
         path, n = generate(chk, module, cfg, label)
         nb[label] = n
-        replay_file(chk, kind, path, n, ticks[:2] if label.endswith("ambient") else ticks, label)
+        replay_file(chk, kind, path, n, [ticks[1 + chk.seed % 2]] if label.endswith("ambient") else ticks, label)
         chk.nontrivial.update(f"{label}:{i}" for i in range(n))
         chk.sample({label: nth_line(path, n // 2)})
     # 3. long random walks (TLC -simulate, seeded); (walks per TLC worker, steps)
